@@ -59,6 +59,12 @@ theorem inventory_covered :
     (∀ rc ∈ table, (Poly.Generated.CodecInventory.c04.map (·.1)).contains rc.name = true) ∧
     table.length = 50 := by decide
 
+/-- (T) constants used by the record schemas: `ContractInvokeParam.Version ≤ MAX_NATIVE_VERSION = 0`, addresses of 20 bytes,
+hashes of 32. -/
+theorem constants_match :
+    Poly.Generated.CodecInventory.const "MAX_NATIVE_VERSION" = 0 ∧ Poly.Generated.CodecInventory.const "ADDR_LEN" = 20 ∧
+    Poly.Generated.CodecInventory.const "UINT256_SIZE" = 32 := by decide
+
 /-- No record decoder preallocates from an unbounded wire count (after the fixes to `BtcTxParam`, `RippleExtraInfo`,
 `StateValidatorListParam`). -/
 theorem records_no_unbounded_prealloc : ∀ rc ∈ table, rc.ty.noUnboundedPrealloc = true := by decide
